@@ -163,7 +163,9 @@ class World:
         ax = s.root.kids["addrxlat"]
         for d in ("default", "force"):
             dn = ax.kids[d]
-            dn.isset = True
+            a = dn
+            while a is not None and not a.isset:          # create_addrxlat_dir instantiates the directory and its ancestors
+                a.isset = True; a = a.parent
             for n, t in opts:
                 o = dn.add(n, t)
                 if t == "dir":
@@ -1111,6 +1113,40 @@ def run(R):
         pre = po[7 * i + 4]
         src = ("dump " + pre[len("predump "):]) if (st != "ok" and pre != "predump -") else po[7 * i + 5]
         fileinfo.append((st, provided_from_dump(parse_dump(src) or [])))
+    # tree shape, stated directly on the implementation: an attribute that reports a value has a parent that reports one
+    # (otherwise no walk from the root can reach it) -- on a fresh context, after setting an option below each of the
+    # initial directories, and after opening each file
+    allpaths = [r["path"] for r in T[0] if r.get("path")] + ["addrxlat.%s.%s" % (d, n) for d in ("default", "force") for n, t in T[1]]
+    anc = ["new 14"] + ["get 14 %s" % q for q in allpaths]
+    anc += ["set 14 addrxlat.default.virt_bits num:48", "set 14 addrxlat.force.phys_bits num:40"] + ["get 14 %s" % q for q in allpaths]
+    for f in files:
+        anc += ["open 14 %s" % f] + ["get 14 %s" % q for q in allpaths]
+    rca, outa, erra = R.run_harness(exe, stdin_text="\n".join(tl + anc) + "\n", timeout=120)
+    oa = kdf.obs(outa)
+    if rca == 0 and len(oa) == len(anc):
+        isset, stage = {}, "on a fresh context"
+        def ancestors_ok():
+            for q, ok in isset.items():
+                par = q.rsplit(".", 1)[0] if "." in q else None
+                if ok and par is not None and par in isset and not isset[par]:
+                    return q, par
+            return None
+        for l, o in zip(anc, oa):
+            w = l.split()
+            if w[0] == "get":
+                isset[w[2]] = o.startswith("get ok")
+                continue
+            bad = ancestors_ok() if isset else None
+            if bad:
+                break
+            isset = {}
+            stage = "after '%s'" % " ".join(w[:1] + [os.path.basename(x) if "/" in x else x for x in w[1:]])
+        else:
+            bad = ancestors_ok()
+        if bad:
+            R.violation("%s: kdump_get_attr(\"%s\") reports a value but its parent directory \"%s\" reports none: the attribute cannot be "
+                        "reached by iterating from the root" % (stage, bad[0], bad[1]),
+                        dict(stream="attr", stage="ancestors", history=[x for x in anc if not x.startswith("get ")][:8] + ["get 14 " + bad[0], "get 14 " + bad[1]]))
     # scripted probe of a known finding that the random histories must avoid (it blocks the process)
     pf = R.path("c13-probe.elf")
     dumpgen.write_elf(pf, [dict(pfn=1, npages=1, voff=0)])
